@@ -31,9 +31,24 @@ pub fn report(prop: &str, fails: Vec<Fail>) {
     let known = KNOWN.get_or_init(engine::Known::load);
     for f in fails {
         if known.is_known(prop, &f.sig).is_none() {
-            panic!("VIOLATION property={} signature={} message={}", prop, f.sig, f.msg);
+            // the harness' panic hook is quiet: say what failed before aborting the fuzzer
+            eprintln!("VIOLATION property={} signature={} message={}", prop, f.sig, f.msg);
+            std::process::abort();
         }
     }
+}
+
+/// cargo-fuzz builds with panic=abort, so the harness' catch_unwind never sees a panic of the code
+/// under test: name it from the hook instead (a panic in there IS a violation of C01/C04).
+pub fn hook(prop: &'static str) {
+    static ONCE: std::sync::Once = std::sync::Once::new();
+    ONCE.call_once(|| {
+        std::panic::set_hook(Box::new(move |info| {
+            let loc = info.location().map(|l| format!("{}:{}", l.file(), l.line())).unwrap_or_default();
+            let msg = info.payload().downcast_ref::<&str>().map(|s| s.to_string()).or_else(|| info.payload().downcast_ref::<String>().cloned()).unwrap_or_default();
+            eprintln!("VIOLATION property={} signature=panic/{} message={}", prop, loc, msg);
+        }));
+    });
 }
 
 pub struct Bytes<'a> {
